@@ -709,3 +709,117 @@ Proof.
 Qed.
 
 End Assemble.
+
+(* ---------- C08: a global exclusion is a filter on the unrestricted result ---------- *)
+Section Exclude.
+Variable ex : string -> bool.                      (* the code is matched by the exclusion list *)
+Variable sup : string -> Z -> bool.                (* the suppression of the unrestricted run *)
+Definition sup' : string -> Z -> bool := fun c p => ex c || sup c p.
+
+Definition keep (d : diag) : bool := negb (ex (d_code d)).
+
+Theorem exclude_report_filter ds : report_filter sup' ds = filter keep (report_filter sup ds).
+Proof.
+  unfold report_filter, sup', keep. induction ds as [|d r IH]; simpl; [reflexivity|].
+  destruct (ex (d_code d)) eqn:Ee; simpl.
+  - destruct (sup (d_code d) (d_pos d)); simpl; [exact IH|]. rewrite Ee. simpl. exact IH.
+  - destruct (sup (d_code d) (d_pos d)); simpl; [exact IH|]. rewrite Ee. simpl. f_equal. exact IH.
+Qed.
+
+(* all keyed candidates (the once-per-file ones) carry one and the same code *)
+Definition keyed_code (kc : string) (cs : list cand) : Prop :=
+  forall c, In c cs -> snd c <> None -> d_code (fst c) = kc.
+
+Lemma dedup_exclude_unkeyed kc cs : keyed_code kc cs -> ex kc = true ->
+  forall seen1 seen2, dedup_rec sup' seen1 cs = filter keep (dedup_rec sup seen2 cs).
+Proof.
+  intros Hk He. induction cs as [|[d k] r IH]; intros seen1 seen2; simpl; [reflexivity|].
+  assert (Hr : keyed_code kc r) by (intros c Hc; apply Hk; right; exact Hc).
+  unfold sup' at 1. destruct k as [k'|].
+  - assert (Hc : d_code d = kc) by (apply (Hk (d, Some k')); [left; reflexivity|discriminate]).
+    rewrite Hc, He. simpl.
+    destruct (sup kc (d_pos d)); [apply IH; exact Hr|].
+    destruct (existsb (key_eqb k') seen2); [apply IH; exact Hr|].
+    simpl. unfold keep at 1. rewrite Hc, He. simpl. apply IH; exact Hr.
+  - destruct (ex (d_code d)) eqn:Ed; simpl.
+    + destruct (sup (d_code d) (d_pos d)); [apply IH; exact Hr|].
+      simpl. unfold keep at 1. rewrite Ed. simpl. apply IH; exact Hr.
+    + destruct (sup (d_code d) (d_pos d)); [apply IH; exact Hr|].
+      simpl. unfold keep at 1. rewrite Ed. simpl. f_equal. apply IH; exact Hr.
+Qed.
+
+Lemma dedup_exclude_keyed kc cs : keyed_code kc cs -> ex kc = false ->
+  forall seen, dedup_rec sup' seen cs = filter keep (dedup_rec sup seen cs).
+Proof.
+  intros Hk He. induction cs as [|[d k] r IH]; intros seen; simpl; [reflexivity|].
+  assert (Hr : keyed_code kc r) by (intros c Hc; apply Hk; right; exact Hc).
+  unfold sup' at 1. destruct k as [k'|].
+  - assert (Hc : d_code d = kc) by (apply (Hk (d, Some k')); [left; reflexivity|discriminate]).
+    rewrite Hc, He. simpl.
+    destruct (sup kc (d_pos d)); [apply IH; exact Hr|].
+    destruct (existsb (key_eqb k') seen); [apply IH; exact Hr|].
+    simpl. unfold keep at 1. rewrite Hc, He. simpl. f_equal. apply IH; exact Hr.
+  - destruct (ex (d_code d)) eqn:Ed; simpl.
+    + destruct (sup (d_code d) (d_pos d)); [apply IH; exact Hr|].
+      simpl. unfold keep at 1. rewrite Ed. simpl. apply IH; exact Hr.
+    + destruct (sup (d_code d) (d_pos d)); [apply IH; exact Hr|].
+      simpl. unfold keep at 1. rewrite Ed. simpl. f_equal. apply IH; exact Hr.
+Qed.
+
+(* detection-time filtering (ignore before the once-per-file dedup) commutes with a global exclusion *)
+Theorem exclude_dedup kc cs :
+  keyed_code kc cs -> dedup_rec sup' [] cs = filter keep (dedup_rec sup [] cs).
+Proof.
+  intros Hk. destruct (ex kc) eqn:He.
+  - apply (dedup_exclude_unkeyed kc cs Hk He).
+  - apply (dedup_exclude_keyed kc cs Hk He).
+Qed.
+
+End Exclude.
+
+(* the keyed candidates of the two detection-time checkers *)
+Lemma tonl_cands_keyed fs n : keyed_code "TONL01" (tonl_cands fs n).
+Proof.
+  intros c Hc Hk. unfold tonl_cands in Hc.
+  assert (Ht : forall t pos, In c (tonl_type_cand fs t pos) -> d_code (fst c) = "TONL01").
+  { intros t pos H. unfold tonl_type_cand in H. destruct (type_info t) as [[p tn]|]; [|contradiction].
+    destruct (tonl_type fs p tn); [|contradiction]. destruct H as [<-|[]]. reflexivity. }
+  assert (Hf : forall pos fn, In c (tonl_func_diag pos fn) -> snd c = None) by (intros pos fn [<-|[]]; reflexivity).
+  destruct (n_kind n); try contradiction; try (eapply Ht; eassumption).
+  - destruct (a_flag (n_attrs n)); [eapply Ht; eassumption|contradiction].
+  - destruct (n_children n) as [|f r]; [contradiction|].
+    destruct (n_kind f); try contradiction.
+    + exfalso. apply Hk.
+      destruct (match n_children f with x :: _ => _ | [] => None end) as [p|].
+      * destruct (tonl_func fs p (a_name (n_attrs f))); [eapply Hf; eassumption|contradiction].
+      * destruct (type_info (a_ty (n_attrs f))) as [[p tn]|]; [|contradiction].
+        destruct (tonl_method fs p (a_name (n_attrs f)) tn); [|contradiction]. destruct Hc as [<-|[]]. reflexivity.
+    + exfalso. apply Hk. destruct (a_obj (n_attrs f)) as [o|]; [|contradiction].
+      destruct (o_kind o); try contradiction. destruct (o_pkg o) as [p|]; [|contradiction].
+      destruct (negb (o_is_method o) && tonl_func fs p (o_name o)); [eapply Hf; eassumption|contradiction].
+Qed.
+
+Lemma keyed_code_flat_map {A} kc (f : A -> list cand) l :
+  (forall x, keyed_code kc (f x)) -> keyed_code kc (flat_map f l).
+Proof. intros H c Hc. apply in_flat_map in Hc. destruct Hc as [x [_ Hc]]. exact (H x c Hc). Qed.
+
+Lemma pkgo_cands_keyed fs cur curname n : keyed_code "PKGO01" (pkgo_cands fs cur curname n).
+Proof.
+  intros c Hc Hk.
+  assert (Ht : forall p tn pos, In c (pkgo_type_cand fs cur curname p tn pos) -> d_code (fst c) = "PKGO01").
+  { intros p tn pos H. unfold pkgo_type_cand in H. destruct (pkgo_attach fs AKType p "" tn); [contradiction|].
+    destruct (negb (String.eqb p cur) && negb (pkgo_allowed cur curname (s :: l))); [|contradiction]. destruct H as [<-|[]]. reflexivity. }
+  assert (Hf : forall p fn pos, In c (pkgo_func_cand fs cur curname p fn pos) -> snd c = None).
+  { intros p fn pos H. unfold pkgo_func_cand in H. destruct (pkgo_attach fs AKFunc p "" fn); [contradiction|].
+    destruct (negb (String.eqb p cur) && negb (pkgo_allowed cur curname (s :: l))); [|contradiction]. destruct H as [<-|[]]. reflexivity. }
+  assert (Hm : forall p r mn pos, In c (pkgo_method_cand fs cur curname p r mn pos) -> snd c = None).
+  { intros p r mn pos H. unfold pkgo_method_cand in H. destruct (pkgo_attach fs AKMethod p r mn); [contradiction|].
+    destruct (negb (String.eqb p cur) && negb (pkgo_allowed cur curname (s :: l))); [|contradiction]. destruct H as [<-|[]]. reflexivity. }
+  assert (Ho : forall o p pos, In c (pkgo_obj_cand fs cur curname o p pos) -> d_code (fst c) = "PKGO01").
+  { intros o p pos H. unfold pkgo_obj_cand in H. destruct (o_kind o); try contradiction.
+    - destruct (if o_is_alias o then named_direct (o_type o) else None) as [[tp tn]|]; eapply Ht; eassumption.
+    - exfalso. apply Hk. destruct (o_is_method o); [eapply Hm|eapply Hf]; eassumption. }
+  unfold pkgo_cands in Hc. destruct (n_kind n); try contradiction;
+    (destruct (a_obj (n_attrs n)) as [o|]; [|contradiction]; destruct (o_pkg o) as [p|]; [|contradiction];
+     destruct (String.eqb p cur); try contradiction; eapply Ho; eassumption).
+Qed.
